@@ -508,3 +508,111 @@ def test_c11_refused_list_update_of_scalar_array():
     with pytest.raises(ValueError):
         a._update([7, [1, 2], 9])
     assert list(a.to_nparray()) == [1, 2, 3]
+
+
+def test_wave7_side_findings():
+    # C19: a field of static shape with dynamic items has a dictionary form
+    class HA7(xo.HybridClass):
+        _xofields = {"names": xo.String[3]}
+
+    h = HA7(names=["a", "bc", "d"])
+    h2 = HA7.from_dict(h.to_dict())
+    assert [h2.names[i] for i in range(3)] == ["a", "bc", "d"]
+
+    # C02: declared array with numpy extents: the offsets of later fields are python integers
+    class Vec7(xo.Array):
+        _itemtype = xo.Float64
+        _shape = (np.int64(3),)
+
+    class Body7(xo.Struct):
+        pos = Vec7
+        mass = xo.Float64
+
+    assert type(Body7.mass.offset) is int and Vec7._shape == (3,)
+
+    # C02: static extent 0 next to a dynamic one
+    A0 = xo.Float64[0, :]
+    assert "return 0*arr[1];" in getattr(A0._gen_c_api(), "source", A0._gen_c_api())
+
+    # C17: 0-d array by address
+    c2 = xo.ContextCpu()
+    c2.add_kernels(
+        sources=["void setfirst7(double* x, double v){ x[0]=v; }"],
+        kernels={"setfirst7": xo.Kernel(args=[xo.Arg(xo.Float64, pointer=True, name="x"), xo.Arg(xo.Float64, name="v")])},
+    )
+    z = np.array(1.5)
+    c2.kernels.setfirst7(x=z, v=3.0)
+    assert z == 3.0
+
+    # C01: rows given as views
+    a = xo.Float64[:]([1, 2, 3])
+    row = xo.Float64[:]._from_buffer(a._buffer, a._offset)
+    assert xo.Float64[:, :]([row, row])._shape == (2, 3)
+
+
+def test_wave7_hybrid_side_findings():
+    class A7(xo.HybridClass):
+        _xofields = {"a": xo.Float64}
+
+    class B7(xo.HybridClass):
+        _xofields = {"b": xo.Float64}
+
+    class UU7(xo.UnionRef):
+        _reftypes = (A7._XoStruct, B7._XoStruct)
+
+    class O7(xo.HybridClass):
+        _xofields = {"u": UU7}
+
+    buf = ctx.new_buffer(256)
+    a = A7(a=1, _buffer=buf)
+    o = O7(_buffer=buf)
+    o.u = a
+    o.u = None
+    assert o.u is None
+    with pytest.raises(MemoryError):
+        o.u = A7(a=2, _buffer=ctx.new_buffer(64))
+
+    # python names below a reference field / in a dictionary assigned by attribute
+    class In7(xo.HybridClass):
+        _xofields = {"_a": xo.Float64, "b": xo.Int64}
+        _rename = {"_a": "a"}
+
+    class Out7(xo.HybridClass):
+        _xofields = {"r": xo.Ref(In7), "k": xo.Int64}
+
+    b2 = ctx.new_buffer(256)
+    o = Out7(k=1, _buffer=b2)
+    o.r = In7(a=3.5, b=2, _buffer=b2)
+    assert Out7.from_dict(o.to_dict(copy_to_cpu=False)).r._a == 3.5
+
+    class Nest7(xo.HybridClass):
+        _xofields = {"inner": In7, "s": xo.Float64}
+
+    n = Nest7(inner={"a": 3, "b": 1})
+    n.inner = {"a": 9, "b": 5}
+    assert n.inner.a == 9
+
+    # a dressed object given to the constructor under the xo name of a renamed reference field
+    class OutX7(xo.HybridClass):
+        _xofields = {"ref_xo": xo.Ref(In7), "s": xo.Float64}
+        _rename = {"ref_xo": "ref_py"}
+
+    b3 = ctx.new_buffer(256)
+    inner = In7(a=1, b=2, _buffer=b3)
+    with pytest.raises(MemoryError):
+        OutX7(ref_xo=inner, _buffer=ctx.new_buffer(64))
+    ox = OutX7(ref_xo=inner, _buffer=b3)
+    with pytest.raises(MemoryError):
+        inner.move(_buffer=ctx.new_buffer(64))
+
+    # a hybrid class named as a dependency
+    from xobjects.context import sort_classes
+
+    class Dep7(xo.HybridClass):
+        _xofields = {"v": xo.Float64}
+
+    class S7(xo.Struct):
+        x = xo.Float64
+        _depends_on = [Dep7]
+
+    assert [c.__name__ for c in sort_classes([S7])] == ["Dep7Data", "S7"]
